@@ -23,7 +23,6 @@ Two parts.
 from __future__ import annotations
 
 import collections
-import glob
 import itertools
 import os
 import struct
@@ -79,7 +78,6 @@ LATTICE = [[r, g, b] for r in (0, 85, 170, 255) for g in (0, 85, 170, 255) for b
 CORNERS = [[r, g, b] for r in (0, 255) for g in (0, 255) for b in (0, 255)]
 INDENTS = [0.0, 0.5, 1.0, 2.25, 3.3]
 SIZES = [1.0, 9.5, 11.0, 14.25, 14.3, 72.0]
-IMG_NAME = "c15-bg.png"
 # a tiny valid PNG (1x1, red)
 IMG_DATA = (b"\x89PNG\r\n\x1a\n\x00\x00\x00\rIHDR\x00\x00\x00\x01\x00\x00\x00\x01\x08\x02\x00\x00\x00\x90wS\xde"
             b"\x00\x00\x00\x0cIDATx\x9cc\xf8\xcf\xc0\x00\x00\x03\x01\x01\x00\xc9\xfe\x92\xef\x00\x00\x00\x00IEND\xaeB`\x82")
@@ -125,13 +123,21 @@ def pair_classes(seed):
     }
 
 
-def to_api(attr, v):
+def img_name(i):
+    return f"c15-bg-{i}.png"
+
+
+def img_data(i):
+    return IMG_DATA + bytes([i])  # trailing byte after IEND: distinct digest per style
+
+
+def to_api(attr, v, i=0):
     if attr in ("font_color", "bg_color"):
         return None if v is None else RGB(*v)
     if attr == "alignment":
         return Alignment(*v)
     if attr == "bg_image":
-        return None if v is None else BackgroundImage(IMG_DATA, IMG_NAME)
+        return None if v is None else BackgroundImage(img_data(i), img_name(i))
     return v
 
 
@@ -143,7 +149,7 @@ def style_snap(st):
         if a == "alignment":
             v = [int(v.horizontal), int(v.vertical)]
         elif a == "bg_image":
-            v = None if v is None else [v.filename, len(v.data or b""), (v.data or b"") == IMG_DATA]
+            v = None if v is None else [v.filename, len(v.data or b""), (v.data or b"")[: len(IMG_DATA)] == IMG_DATA]
         elif a in ("font_color", "bg_color"):
             if isinstance(v, list):
                 v = [list(x) for x in v]
@@ -153,14 +159,14 @@ def style_snap(st):
     return d
 
 
-def expected_snap(spec, name):
+def expected_snap(spec, name, i=0):
     d = {}
     for a in ATTRS:
         v = spec.get(a, DEFAULTS[a])
         if a == "alignment":
             v = [H_NUM[v[0]], V_NUM[v[1]]]
         elif a == "bg_image":
-            v = None if v is None else [IMG_NAME, len(IMG_DATA), True]
+            v = None if v is None else [img_name(i), len(IMG_DATA) + 1, True]
         d[a] = v
     d["name"] = name
     return d
@@ -226,7 +232,7 @@ def baseline():
     return _BASE["b"]
 
 
-def lib_fingerprint(spec):
+def lib_fingerprint(spec, i=0):
     """The string key update_cell_styles uses to share cell-style archives (used ONLY to label a
     failure for known-finding matching, never for the verdict)."""
     g = lambda a: spec.get(a, DEFAULTS[a])  # noqa: E731
@@ -234,7 +240,7 @@ def lib_fingerprint(spec):
     if g("bg_color") is not None:
         fp += "".join(str(x) for x in g("bg_color"))
     if g("bg_image") is not None:
-        fp += IMG_NAME
+        fp += img_name(i)
     return fp
 
 
@@ -245,13 +251,13 @@ def build_style_doc(case):
     for i, spec in enumerate(case["styles"]):
         name = None if (case.get("autoname") and i == len(case["styles"]) - 1) else f"C15 Style {i + 1}"
         if case.get("ctor") == "setattr":
-            kw0 = {a: to_api(a, v) for a, v in spec.items() if a == "bg_image"}
+            kw0 = {a: to_api(a, v, i) for a, v in spec.items() if a == "bg_image"}
             st = doc.add_style(name=name, **kw0)
             for a, v in spec.items():
                 if a != "bg_image":
                     setattr(st, a, to_api(a, v))
         else:
-            st = doc.add_style(name=name, **{a: to_api(a, v) for a, v in spec.items()})
+            st = doc.add_style(name=name, **{a: to_api(a, v, i) for a, v in spec.items()})
         styles.append(st)
     written = {}
     for r, c, si, how in case["cells"]:
@@ -279,11 +285,10 @@ def eval_style_case(case):
     """Evaluate one style case (two documents). -> (failures [(ident, detail)], stats Counter)."""
     fails = []
     stats = collections.Counter()
-    fam = case.get("family", "?")
     seen = set()
 
     def fail(view, attr, cls, detail):
-        ident = {"mechanism": "style", "family": fam, "view": view, "attr": attr, "class": cls}
+        ident = {"mechanism": "style", "view": view, "attr": attr, "class": cls}
         k = repr(sorted(ident.items()))
         if k not in seen:
             seen.add(k)
@@ -327,7 +332,7 @@ def eval_style_case(case):
     final = {}
     for r, c, si, _how in case["cells"]:
         final[(r, c)] = si
-    fps = [lib_fingerprint(s) for s in case["styles"]]
+    fps = [lib_fingerprint(s, i) for i, s in enumerate(case["styles"])]
     border_want = model_view(edges, None, NR, NC)
     for vname, view in views.items():
         from_file = vname.startswith("file")
@@ -336,7 +341,7 @@ def eval_style_case(case):
             if rc in final:
                 si = final[rc]
                 spec = case["styles"][si]
-                want = expected_snap(spec, names[si])
+                want = expected_snap(spec, names[si], si)
                 stats["style_evaluations"] += 1
             else:
                 want = base[rc]["style"]
@@ -357,7 +362,7 @@ def eval_style_case(case):
                     cls = "float32-rounding"
                 elif a in CELL_STYLE_ATTRS and from_file:
                     others = [j for j in range(len(case["styles"])) if j != si and fps[j] == fps[si]]
-                    if any(expected_snap(case["styles"][j], "")[a] == g for j in others):
+                    if any(expected_snap(case["styles"][j], "", j)[a] == g for j in others):
                         cls = "cell-style-fingerprint-collision"
                 fail(vname, a, cls, f"{vname}: cell {rc} styled with {spec} reports {a}={g!r}, given {w!r}")
             wantv = written.get(rc, base[rc]["value"])
@@ -398,7 +403,7 @@ def eval_fixture_case(case):
         path = os.path.join(os.path.dirname(numbers_parser.__file__), "data", case["name"])
 
     def ident(cls, view="read-before-save"):
-        return {"mechanism": "style", "family": "fixture", "view": view, "attr": "-", "class": cls}
+        return {"mechanism": "style-fixture", "view": view, "attr": "-", "class": cls}
 
     def opened():
         with warnings.catch_warnings(record=True) as w:
@@ -599,12 +604,13 @@ def gen_fixture_cases(tier, seed):
     else:
         # same rule as mc.snapshot.readable_fixtures() (opens, no unsupported-version warning), applied by the
         # worker to the files it is given, so that quick does not open the whole corpus
-        allp = sorted(os.path.basename(p) for p in glob.glob(os.path.join(FIXTURES, "*.numbers")) if os.path.isfile(p) and os.path.getsize(p) < 400_000)
-        others = [n for n in allp if n not in must]
-        pick = ["test-borders.numbers", "test-1.numbers", "test-formats.numbers", "issue-77.numbers"]
-        pick = [n for n in pick if n in others]
-        k = seed % max(1, len(others))
-        pick += [n for n in (others[k:] + others[:k]) if n not in pick][:4]
+        cand = ["test-1", "test-formats", "issue-77", "test-save-1", "issue-3", "issue-43", "issue-73", "test-format-save", "issue-7", "issue-42", "matches",
+                "test-issue-75", "issue-44", "test-2", "test-5", "issue-51", "test-actions", "test-4", "test-8", "test-titles", "issue-96", "format-1", "test-10",
+                "issue-69", "issue-80", "test-9", "issue-37", "test-empty-rows", "test-new-formulas", "issue-54", "issue-10", "custom-formats1", "issue-32",
+                "issue-9", "test-7", "issue-49", "issue-59"]
+        cand = [n + ".numbers" for n in cand if os.path.exists(os.path.join(FIXTURES, n + ".numbers"))]
+        k = (3 * seed) % max(1, len(cand))
+        pick = (cand[k:] + cand[:k])[:5]
         names = must + pick
     return [{"kind": "fixture", "name": n} for n in names]
 
